@@ -1,8 +1,12 @@
 package main
 
 import (
+	"bytes"
 	"fmt"
+	"math"
 	"strings"
+
+	"github.com/koykov/dyntpl"
 )
 
 // regionRel is the property-level check of "everything rendered inside a <kind> region is escaped":
@@ -99,6 +103,97 @@ func regionRaw(r *Run, n int) {
 	for i := 0; i < n; i++ {
 		c, _ := genCase(r, cfg)
 		cases = append(cases, c)
+	}
+	runSessions(r, cases, outputDiffers)
+}
+
+// escRuns covers what the per-input sweeps of the escape properties hold fixed: the LENGTH of a letter run and
+// the KIND of the value.
+//   - long runs: a directive of n = 10, 11, 12, 21 equal letters (and the named call with that count) must print
+//     what n single-letter renders fed into one another print (a relation on the real engine alone), and the
+//     same as the interpreter model;
+//   - typed values: negative and unsigned integers of several widths, floats, booleans, a counter, bytes, and
+//     fields of an inspected struct go through every letter and named modifier of the property (Go vs model:
+//     the escaper sees the value's text, whatever its Go type).
+func escRuns(r *Run, letters []string, mods []string) {
+	var cases []*RCase
+	ins := []string{"a-b", `x"y\`, "<&>'", "é z/?=%", "-15"}
+	for li, l := range letters {
+		for ni, n := range []int{10, 11, 12, 21} {
+			in := ins[(li+ni)%len(ins)]
+			if n > 12 {
+				in = "a-b" // the output doubles with every pass on an escapable byte: keep the long one short
+			}
+			d := strings.Repeat(l, n)
+			c := &RCase{Tpls: []TplDef{{Key: "main", Src: "{%" + d + "= v %}", KeepFmt: true}}, Meta: map[string]any{"directive": d, "input": in}}
+			c.Ops = []SOp{{Kind: "static", Name: "v", Val: in}, {Kind: "render", Key: "main"}}
+			cases = append(cases, c)
+			r.Dist["long-run"]++
+			// n single passes fed into one another
+			k1, err, pan := regTpl("{%"+l+"= v %}", true)
+			kn, err2, pan2 := regTpl("{%"+d+"= v %}", true)
+			if err != nil || err2 != nil || pan != "" || pan2 != "" {
+				r.Violate("long-run parse "+d, "a directive of repeated letters is rejected by Parse", c.Describe())
+				continue
+			}
+			cur := []byte(in)
+			okc := true
+			for i := 0; i < n && okc; i++ {
+				ctx := dyntpl.NewCtx()
+				ctx.SetBytes("v", cur)
+				res := renderSafe(k1, ctx)
+				if res.Err != nil || res.Panic != "" {
+					okc = false
+				}
+				cur = res.Out
+			}
+			ctx := dyntpl.NewCtx()
+			ctx.SetBytes("v", []byte(in))
+			res := renderSafe(kn, ctx)
+			r.Count("long-run:"+d, true)
+			if okc && (res.Err != nil || res.Panic != "" || !bytes.Equal(res.Out, cur)) {
+				c.Meta["n_single_passes"] = string(cur)
+				c.Meta["directive_output"] = string(res.Out)
+				r.Violate("long-run "+d+" in="+in, fmt.Sprintf("a directive of %d letters %q does not print what %d single passes print", n, l, n), c.Describe())
+			}
+		}
+	}
+	for mi, m := range mods {
+		for ni, n := range []int{10, 12} {
+			in := ins[(mi+ni)%len(ins)]
+			src := fmt.Sprintf("{%%= v|%s(%d) %%}", m, n)
+			c := &RCase{Tpls: []TplDef{{Key: "main", Src: src, KeepFmt: true}}, Meta: map[string]any{"chain": src, "input": in}}
+			c.Ops = []SOp{{Kind: "static", Name: "v", Val: in}, {Kind: "render", Key: "main"}}
+			cases = append(cases, c)
+			r.Dist["long-run"]++
+		}
+	}
+	typed := []SOp{{Kind: "static", Name: "v", Val: int64(-15)}, {Kind: "static", Name: "v", Val: int8(-3)}, {Kind: "static", Name: "v", Val: int64(math.MinInt64)},
+		{Kind: "static", Name: "v", Val: uint64(7)}, {Kind: "static", Name: "v", Val: -0.5}, {Kind: "static", Name: "v", Val: 1e-7}, {Kind: "static", Name: "v", Val: true},
+		{Kind: "counter", Name: "v", Val: -4}, {Kind: "bytes", Name: "v", Val: []byte("-1 <")}, {Kind: "static", Name: "v", Val: []byte("-2 \"")}}
+	u := UserSpec{Id: "-7", Name: "n-m", Status: -42, Ustate: 3, Cost: -1.25}
+	var forms []string
+	for _, l := range letters {
+		forms = append(forms, "{%"+l+"= @ %}", "{%"+l+l+"= @ %}")
+	}
+	for _, m := range mods {
+		forms = append(forms, "{%= @|"+m+" %}")
+	}
+	for _, f := range forms {
+		for _, v := range typed {
+			src := strings.ReplaceAll(f, "@", "v")
+			c := &RCase{Tpls: []TplDef{{Key: "main", Src: src, KeepFmt: true}}, Meta: map[string]any{"typed-value": v.Desc()}}
+			c.Ops = []SOp{v, {Kind: "render", Key: "main"}}
+			cases = append(cases, c)
+			r.Dist["typed-value"]++
+		}
+		for _, p := range []string{"user.Status", "user.Cost", "user.Id", "user.Name"} {
+			src := strings.ReplaceAll(f, "@", p)
+			c := &RCase{Tpls: []TplDef{{Key: "main", Src: src, KeepFmt: true}}, Meta: map[string]any{"typed-value": p}}
+			c.Ops = []SOp{{Kind: "obj", Name: "user", Val: u}, {Kind: "render", Key: "main"}}
+			cases = append(cases, c)
+			r.Dist["typed-value"]++
+		}
 	}
 	runSessions(r, cases, outputDiffers)
 }
